@@ -732,14 +732,18 @@ def dft_checks(ctx, lean, oracle, c, op, case):
     if not _close(R, D, 1e-9):
         ctx.disagree("linops.DFT.matrix", case, _summ(R), _summ(D), oracle=oracle, note="Lean 1-d DFT matrices lifted to the axes differ from the real operator")
         return
-    if sorted(axes) == list(range(len(c["shape"]))) and all(m == c["shape"][a] for a, m in zip(axes, ash)) and _prod(c["shape"]) <= 12:
-        # the N-d definition of C04_dft_nd_inv (all axes, transform size = input size): forward and inverse matrices
-        Dn = _cmat(lean.m.call("dftnd", dims=c["shape"], norm=c["norm"] or "backward", inv=False))
-        Di_n = _cmat(lean.m.call("dftnd", dims=c["shape"], norm=c["norm"] or "backward", inv=True))
+    if all(m == c["shape"][a] for a, m in zip(axes, ash)) and _prod(c["shape"]) <= 12 and len(set(axes)) == len(axes):
+        # the N-d definition of C04_dft_axes_inv (any subset of the axes, transform size = input size): forward and inverse
+        kw = dict(dims=c["shape"], axes=sorted(axes), norm=c["norm"] or "backward")
+        Dn = _cmat(lean.m.call("dftaxes", inv=False, **kw))
+        Di_n = _cmat(lean.m.call("dftaxes", inv=True, **kw))
         ctx.count("dft-nd-definition")
         if not (_close(R, Dn, 1e-9) and _close(Di_n @ Dn, np.eye(Dn.shape[0]), 1e-9)):
             ctx.disagree("linops.DFT.nd", case, _summ(R), _summ(Dn), oracle=oracle, note="N-d DFT definition of the model differs from the real operator")
             return
+        if sorted(axes) == list(range(len(c["shape"]))):  # all axes: the definition of C04_dft_nd_inv must agree
+            if not _close(_cmat(lean.m.call("dftnd", dims=c["shape"], norm=c["norm"] or "backward", inv=False)), Dn, 1e-12):
+                raise common.Infra("model: dftNd and dftAxes differ")
     # inverse as coded (crop / pad of the spectrum) from the Lean model
     n_out = _prod(op.output_shape)
     Rinv = opgrid.dense(op, fn=None, dtype=np.complex128) if False else None
